@@ -114,6 +114,27 @@ Theorem C09_orders_never_older : forall (ops1 ops2 : list op) (s0 : orders) (c t
 Proof. exact history_monotone. Qed.
 Print Assumptions C09_orders_never_older.
 
+(** Engine-side in-flight recordings (open / cancel requests, also repeated) and cancel
+    responses interleaved between the reports never weaken this: while an id stays tracked and
+    no new open request for it is recorded, the open data held for it (inside Open or
+    CancelInFlight) is never dropped and its exchange timestamp never decreases -- so a failed
+    cancel restores the most recent confirmed open state, and a late older report arriving after
+    any number of cancel requests is still refused ... *)
+Theorem C09_details_persist : forall (s : orders) (o : op) (c t : Z),
+  ts s c = Some t -> step s o c <> None ->
+  (forall r, o = RecOpen r -> k_cid (o_key r) <> c) ->
+  exists t', ts (step s o) c = Some t' /\ t <= t'.
+Proof. exact details_persist. Qed.
+Print Assumptions C09_details_persist.
+
+(** ... and an "open" report with something left and exchange time T always leaves its id
+    tracked with open data at least as recent as T, whatever was recorded in flight before. *)
+Theorem C09_open_report_floor : forall (s : orders) (o : op) (T : Z) (m : meta),
+  open_report o = Some (T, m) ->
+  exists t', ts (step s o) (cid_of o) = Some t' /\ T <= t'.
+Proof. exact open_report_floor. Qed.
+Print Assumptions C09_open_report_floor.
+
 (** The run-time oracle is no stricter than the model: on every correspondence case where the
     model reproduces the observed engine states, they satisfy the oracle after every event. *)
 Theorem C09_oracle_sound : forall c : case, corr_b c = true -> prop_b c = true.
